@@ -1,0 +1,302 @@
+//! Verification drivers, compiled only with `--cfg xcp_verif`.
+//!
+//! These hooks never report anything; they only let an external
+//! harness make the kernel-facing calls of libfs behave in ways the
+//! local kernel/filesystem would not produce on demand: short
+//! transfer counts, unsupported facilities, a successful clone, and
+//! seeded delays. The plan is read once from `XCP_VERIF_PLAN`, a
+//! `;`-separated list of `key=value` items:
+//!
+//! ```text
+//! <label>.max=N        every <label> call moves at most N bytes
+//! <label>.nth=K:N      only the K-th (1-based) <label> call is clamped to N
+//! <label>.seq=a,b,c    the i-th <label> call is clamped to the i-th value (0 = no clamp)
+//! <label>.tab=o:r:n,.. a call at offset o requesting r bytes is clamped to n
+//! <label>.rand=S       the i-th call is clamped to 1 + hash(S,i) % requested
+//! <label>.errno=E      every <label> call fails with errno E (number)
+//! <label>.errnth=K:E   only the K-th <label> call fails with errno E
+//! clone=real|emulate|errno:E
+//! fiemap=real|unsupported
+//! delay=S:MAXUS        sleep hash(S,label,i) % MAXUS microseconds at each hook point
+//! ```
+//!
+//! Labels: `cfr` (copy_file_range), `pread`, `pwrite`, `read`.
+
+use std::collections::HashMap;
+use std::sync::atomic::{AtomicU64, Ordering};
+use std::sync::{Mutex, OnceLock};
+
+#[derive(Default, Debug)]
+struct LabelPlan {
+    max: Option<u64>,
+    nth: Option<(u64, u64)>,
+    seq: Vec<u64>,
+    tab: Vec<(u64, u64, u64)>,
+    rand: Option<u64>,
+    errno: Option<i32>,
+    errnth: Option<(u64, i32)>,
+}
+
+#[derive(Debug, Clone, Copy, PartialEq)]
+pub(crate) enum CloneMode {
+    Real,
+    Emulate,
+    Errno(i32),
+}
+
+#[derive(Debug)]
+struct Plan {
+    labels: HashMap<String, LabelPlan>,
+    clone: CloneMode,
+    fiemap_unsupported: bool,
+    delay: Option<(u64, u64)>,
+}
+
+static PLAN: OnceLock<Plan> = OnceLock::new();
+static COUNTERS: OnceLock<Mutex<HashMap<String, u64>>> = OnceLock::new();
+static DELAYS: AtomicU64 = AtomicU64::new(0);
+
+fn parse() -> Plan {
+    let mut plan = Plan {
+        labels: HashMap::new(),
+        clone: CloneMode::Real,
+        fiemap_unsupported: false,
+        delay: None,
+    };
+    let raw = std::env::var("XCP_VERIF_PLAN").unwrap_or_default();
+    for item in raw.split(';').map(str::trim).filter(|s| !s.is_empty()) {
+        let Some((key, val)) = item.split_once('=') else { continue };
+        let nums = |s: &str, sep: char| -> Vec<u64> {
+            s.split(sep).filter_map(|x| x.trim().parse::<u64>().ok()).collect()
+        };
+        match key {
+            "clone" => {
+                plan.clone = match val {
+                    "emulate" => CloneMode::Emulate,
+                    v if v.starts_with("errno:") => CloneMode::Errno(v[6..].parse().unwrap_or(5)),
+                    _ => CloneMode::Real,
+                }
+            }
+            "fiemap" => plan.fiemap_unsupported = val == "unsupported",
+            "delay" => {
+                let n = nums(val, ':');
+                if n.len() == 2 && n[1] > 0 {
+                    plan.delay = Some((n[0], n[1]));
+                }
+            }
+            _ => {
+                let Some((label, what)) = key.split_once('.') else { continue };
+                let lp = plan.labels.entry(label.to_string()).or_default();
+                match what {
+                    "max" => lp.max = val.parse().ok(),
+                    "nth" => {
+                        let n = nums(val, ':');
+                        if n.len() == 2 { lp.nth = Some((n[0], n[1])); }
+                    }
+                    "seq" => lp.seq = nums(val, ','),
+                    "tab" => {
+                        for t in val.split(',') {
+                            let n = nums(t, ':');
+                            if n.len() == 3 { lp.tab.push((n[0], n[1], n[2])); }
+                        }
+                    }
+                    "rand" => lp.rand = val.parse().ok(),
+                    "errno" => lp.errno = val.parse().ok(),
+                    "errnth" => {
+                        let n = nums(val, ':');
+                        if n.len() == 2 { lp.errnth = Some((n[0], n[1] as i32)); }
+                    }
+                    _ => {}
+                }
+            }
+        }
+    }
+    plan
+}
+
+fn plan() -> &'static Plan {
+    PLAN.get_or_init(parse)
+}
+
+fn mix(mut x: u64) -> u64 {
+    // splitmix64
+    x = x.wrapping_add(0x9e3779b97f4a7c15);
+    x = (x ^ (x >> 30)).wrapping_mul(0xbf58476d1ce4e5b9);
+    x = (x ^ (x >> 27)).wrapping_mul(0x94d049bb133111eb);
+    x ^ (x >> 31)
+}
+
+fn next_index(counter: &str) -> u64 {
+    let m = COUNTERS.get_or_init(|| Mutex::new(HashMap::new()));
+    let mut g = m.lock().unwrap();
+    let c = g.entry(counter.to_string()).or_insert(0);
+    *c += 1;
+    *c
+}
+
+/// Number of bytes the call labelled `label` should request instead
+/// of `req`. Never returns 0 for a non-zero request and never more
+/// than `req`.
+pub(crate) fn clamp(label: &str, off: Option<u64>, req: u64) -> u64 {
+    delay(label);
+    let Some(lp) = plan().labels.get(label) else { return req };
+    if req == 0 {
+        return req;
+    }
+    let idx = next_index(label);
+    let mut out = req;
+    if let Some(m) = lp.max {
+        out = out.min(m);
+    }
+    if let Some((k, n)) = lp.nth {
+        if idx == k { out = out.min(n); }
+    }
+    if let Some(n) = lp.seq.get((idx - 1) as usize) {
+        if *n > 0 { out = out.min(*n); }
+    }
+    if let Some(o) = off {
+        for (to, tr, tn) in &lp.tab {
+            if *to == o && *tr == req { out = out.min(*tn); }
+        }
+    }
+    if let Some(s) = lp.rand {
+        out = out.min(1 + mix(s ^ mix(idx)) % req);
+    }
+    out.max(1)
+}
+
+/// An errno the call labelled `label` should fail with, if any.
+pub(crate) fn force(label: &str) -> Option<i32> {
+    let lp = plan().labels.get(label)?;
+    if lp.errno.is_none() && lp.errnth.is_none() {
+        return None;
+    }
+    let idx = next_index(&format!("{label}.err"));
+    if let Some((k, e)) = lp.errnth {
+        if idx == k { return Some(e); }
+    }
+    lp.errno
+}
+
+pub(crate) fn clone_mode() -> CloneMode {
+    delay("clone");
+    plan().clone
+}
+
+pub(crate) fn fiemap_unsupported() -> bool {
+    plan().fiemap_unsupported
+}
+
+pub(crate) fn delay(label: &str) {
+    if let Some((seed, maxus)) = plan().delay {
+        let i = DELAYS.fetch_add(1, Ordering::Relaxed);
+        let h = label.bytes().fold(seed, |a, b| mix(a ^ b as u64));
+        let us = mix(h ^ mix(i)) % maxus;
+        std::thread::sleep(std::time::Duration::from_micros(us));
+    }
+}
+
+/// Emulated clone for filesystems without reflink support: makes the
+/// destination's content equal to the source's with plain positional
+/// reads and writes, bracketed by two marker calls (`write(-1, ..)`,
+/// which fail with EBADF and change nothing) so that a syscall tracer
+/// can tell the emulation's writes from the program's own.
+fn emulate_clone(infd: libc::c_int, outfd: libc::c_int) -> std::io::Result<()> {
+    use std::fs::File;
+    use std::mem::ManuallyDrop;
+    use std::os::unix::fs::FileExt;
+    use std::os::unix::io::FromRawFd;
+    let marker = |m: &str| unsafe { libc::write(-1, m.as_ptr() as *const libc::c_void, m.len()) };
+    let infd = ManuallyDrop::new(unsafe { File::from_raw_fd(infd) });
+    let outfd = ManuallyDrop::new(unsafe { File::from_raw_fd(outfd) });
+    marker("XCPVERIF:clone-emul-begin");
+    let r = (|| {
+        let len = infd.metadata()?.len();
+        outfd.set_len(len)?;
+        let mut buf = vec![0u8; 1 << 16];
+        let mut off = 0u64;
+        while off < len {
+            let n = infd.read_at(&mut buf, off)?;
+            if n == 0 { break; }
+            outfd.write_all_at(&buf[..n], off)?;
+            off += n as u64;
+        }
+        Ok(())
+    })();
+    marker("XCPVERIF:clone-emul-end");
+    r
+}
+
+/// Stand-in for the `libc` names used by `reflink()` and `fiemap()`:
+/// everything is the real thing except `ioctl`, which consults the
+/// plan for FICLONE / FS_IOC_FIEMAP requests.
+pub(crate) mod libc_shim {
+    pub use ::libc::*;
+    use linux_raw_sys::ioctl::{FICLONE, FS_IOC_FIEMAP};
+
+    pub trait IoctlArg { fn into_ulong(self) -> c_ulong; }
+    impl<T> IoctlArg for *mut T { fn into_ulong(self) -> c_ulong { self as usize as c_ulong } }
+    impl IoctlArg for c_int { fn into_ulong(self) -> c_ulong { self as c_ulong } }
+
+    unsafe fn fail(e: c_int) -> c_int {
+        *::libc::__errno_location() = e;
+        -1
+    }
+
+    pub unsafe fn ioctl<A: IoctlArg>(fd: c_int, req: u64, arg: A) -> c_int {
+        let arg = arg.into_ulong();
+        if req == FICLONE as u64 {
+            match super::clone_mode() {
+                super::CloneMode::Real => {}
+                super::CloneMode::Errno(e) => return fail(e),
+                super::CloneMode::Emulate => {
+                    return match super::emulate_clone(arg as c_int, fd) {
+                        Ok(()) => 0,
+                        Err(e) => fail(e.raw_os_error().unwrap_or(EIO)),
+                    }
+                }
+            }
+        } else if req == FS_IOC_FIEMAP as u64 {
+            super::delay("fiemap");
+            if super::fiemap_unsupported() {
+                return fail(EOPNOTSUPP);
+            }
+        }
+        ::libc::ioctl(fd, req as _, arg)
+    }
+}
+
+/// Stand-in for `rustix::fs::copy_file_range` used by
+/// `try_copy_file_range()`: may fail with a planned errno or request
+/// fewer bytes than asked (a real short transfer).
+pub(crate) fn copy_file_range<InFd: std::os::fd::AsFd, OutFd: std::os::fd::AsFd>(
+    fd_in: InFd,
+    off_in: Option<&mut u64>,
+    fd_out: OutFd,
+    off_out: Option<&mut u64>,
+    len: usize,
+) -> rustix::io::Result<usize> {
+    if let Some(e) = force("cfr") {
+        return Err(rustix::io::Errno::from_raw_os_error(e));
+    }
+    let len = clamp("cfr", off_in.as_deref().copied(), len as u64) as usize;
+    rustix::fs::copy_file_range(fd_in, off_in, fd_out, off_out, len)
+}
+
+/// Stand-in for `rustix::io::pread` (short reads).
+pub(crate) fn pread<Fd: std::os::fd::AsFd>(fd: Fd, buf: &mut [u8], offset: u64) -> rustix::io::Result<usize> {
+    if let Some(e) = force("pread") {
+        return Err(rustix::io::Errno::from_raw_os_error(e));
+    }
+    let n = clamp("pread", Some(offset), buf.len() as u64) as usize;
+    rustix::io::pread(fd, &mut buf[..n], offset)
+}
+
+/// Stand-in for `rustix::io::pwrite` (short writes).
+pub(crate) fn pwrite<Fd: std::os::fd::AsFd>(fd: Fd, buf: &[u8], offset: u64) -> rustix::io::Result<usize> {
+    if let Some(e) = force("pwrite") {
+        return Err(rustix::io::Errno::from_raw_os_error(e));
+    }
+    let n = clamp("pwrite", Some(offset), buf.len() as u64) as usize;
+    rustix::io::pwrite(fd, &buf[..n], offset)
+}
